@@ -189,6 +189,29 @@ def check_C17(c):
         jobs.append(('tr_api_grapheq', dict(tr1=tr, top1=c.rng.choice(vs + [None]), tr2=tr2, top2=c.rng.choice(vs + [None]))))
     for text in ['1', '01', 'e.1', 'e1', 'E.12,3', 'x.0,00,7', '10,2', 'Z9']:
         jobs.append(('tr_api_aln', dict(text=text)))
+    for text in ['e12', 'x10,3', 'e.0', 'Q.5,6,7', '007']:
+        jobs.append(('tr_api_aln', dict(text=text)))
+    # the text of decode errors: every combination of present / absent fields, and errors the parser raises itself
+    vals = dict(message=[None, 'Expected: ROLE', ''], filename=[None, 'f.txt'], lineno=[None, 1, 12], offset=[None, 0, 5], text=[None, '(a / b', ''])
+    import itertools
+    for combo in itertools.product(*vals.values()):
+        jobs.append(('tr_api_errstr', dict(zip(vals.keys(), combo))))
+    for bad in ['(a / b', '(a / b :c', ')', '(a b)', '(a / b))', 'a', '(a / "x', '# c\n(a :b (c / d) :e', '(a / b\n   :c (d /\n  e f))', '(a ~1)', '(', '']:
+        jobs.append(('tr_api_errstr', dict(raised_from=bad)))
+    # model equality and from_dict
+    descs = [{}, {'roles': {':ARG0': {}}}, {'roles': {':ARG0': {}, ':mod': {}}}, {'roles': {':ARG0': {'type': 'x'}}}, {'normalizations': {':mod-of': ':domain'}},
+             {'reifications': [[':mod', 'have-mod-91', ':ARG1', ':ARG2']]}, {'top_variable': 'root'}, {'top_role': ':ROOT'}, {'concept_role': ':isa'},
+             {'roles': {':ARG0': {}}, 'normalizations': {':mod-of': ':domain'}}, {'top_variable': 'top', 'top_role': ':TOP'}]
+    for d1 in descs:
+        for d2 in descs:
+            jobs.append(('tr_api_modeleq', dict(d1=d1, d2=d2)))
+    # the command's answers to argument errors
+    for args, usage in [(['--version'], False), (['-V'], False), (['--indent=x'], False), (['--indent=-2'], False), (['--indent=1.5'], False), (['--indent=no'], False),
+                        (['--indent=3'], False), (['--amr', '--noop'], True), (['--amr', '--model', '/nonexistent/model.json'], True), (['--rearrange', 'sideways'], True),
+                        (['--reconfigure', 'alphanumeric'], True), (['--rearrange', 'canonical,upside-down'], True), (['--no-such-option'], True),
+                        (['--model', '/nonexistent/model.json'], True), (['--rearrange'], True), (['--check', '--quiet'], False), ([], False),
+                        (['--reconfigure', 'original,random'], False), (['--rearrange', 'inverted-last,attributes-first'], False)]:
+        jobs.append(('tr_api_args', dict(args=args, usage_error=usage)))
     api = pmake(jobs)
     c.judge('J_Api', api, 'api-surface', gating=False)
     c.rule = ('call histories of 10 calls generated by TLC in simulation mode from Purity.tla (23 operations: interpret, configure, '
